@@ -74,7 +74,7 @@ impl Property for C17 {
             knobs: Knobs { max_nodes: 20, variant, ..Default::default() },
         };
         match tier {
-            Tier::Quick => vec![mk("doc-spans", 80_000, 0), mk("fragment-spans", 40_000, 1), mk("error-spans", 60_000, 2)],
+            Tier::Quick => vec![mk("doc-spans", 300_000, 0), mk("fragment-spans", 150_000, 1), mk("error-spans", 200_000, 2)],
             Tier::Thorough => vec![mk("doc-spans", 2_000_000, 0), mk("fragment-spans", 800_000, 1), mk("error-spans", 1_000_000, 2)],
         }
     }
